@@ -309,4 +309,76 @@ def step (E : Env) (skip : List Nat) (s : St) : Op → St
               else settle E skip { s with now := s.now + d, trace := Ev.clock (s.now + d) :: s.trace }
   | .done id res cpok => settle E skip (done E s id res cpok)
 
+/-! ### the coordinator (task/backend/coordinator/coordinator.go)
+
+What `TaskCreated` / `TaskUpdated` / `TaskDeleted` forward to the scheduler. The SHAPES are regenerated from the
+source (`Gen.coordCreated/Updated/Deleted`, `Gen.pickTs`); an unrecognised shape yields `Fwd.unknown`, which nothing
+accepts. `NewSchedule`'s alignment of the last-scheduled time for `@every N` is `alignTs` (Go's `Time.Truncate`
+counts from year 1, hence `goEpoch`). -/
+
+structure CTask where
+  hasSchedule : Bool          -- `Cron != "" || Every != ""`
+  every : Option Int          -- `@every N` seconds (aligned by NewSchedule); none for a cron line
+  active : Bool               -- Status == "active"
+  ls : Option Int             -- LatestScheduled (none = zero time)
+  lc : Option Int             -- LatestCompleted (none = zero time)
+deriving Repr
+
+inductive Fwd where
+  | sched (last : Int)        -- Schedule(task) with LastScheduled() = last
+  | rel                       -- Release(id)
+  | err                       -- the callback returns an error, nothing is forwarded
+  | unknown
+deriving DecidableEq, Repr
+
+/-- Seconds between the zero `time.Time` (0001-01-01) and the Unix epoch. -/
+def goEpoch : Int := 62135596800
+
+def alignTs (every : Option Int) (ts : Int) : Int :=
+  match every with
+  | some n => if n > 0 then ts - (ts + goEpoch) % n else ts
+  | none => ts
+
+/-- `ts := CreatedAt; if LS.IsZero() || LS.Before(LC) { ts = LC } else if !LS.IsZero() { ts = LS }`
+(`CreatedAt` is never used: one of the two branches always assigns). `none` = the zero time. -/
+def pickTs (t : CTask) : Option (Option Int) :=
+  match Gen.pickTs with
+  | .completedIfScheduledZeroOrOlderElseScheduled =>
+    some (match t.ls, t.lc with
+      | none, lc => lc
+      | some ls, some lc => if ls < lc then some lc else some ls
+      | some ls, none => some ls)
+  | .unknown _ => none
+
+def schedFwd (t : CTask) : Fwd :=
+  if !t.hasSchedule then .err else
+  match pickTs t with
+  | some (some ts) => .sched (alignTs t.every ts)
+  | some none => .unknown        -- the zero time: not generated (year-1 arithmetic is outside the model)
+  | none => .unknown
+
+def applyShape : Gen.CoordShape → CTask → CTask → Fwd
+  | .schedule, _, to => schedFwd to
+  | .release, _, _ => .rel
+  | .releaseIfBecameInactiveElseSchedule, frm, to =>
+    match schedFwd to with
+    | .sched last => if frm.active != to.active && !to.active then .rel else .sched last
+    | f => f
+  | .unknown _, _, _ => .unknown
+
+inductive CKind where | created | updated | deleted
+deriving DecidableEq, Repr
+
+def coordFwd (k : CKind) (frm to : CTask) : Fwd :=
+  match k with
+  | .created => applyShape Gen.coordCreated to to
+  | .updated => applyShape Gen.coordUpdated frm to
+  | .deleted => applyShape Gen.coordDeleted frm to
+
+/-- The scheduler action a forwarded call is (`sc`: the schedule object, `offms`: the task's offset in ms). -/
+def fwdAct (id sc : Nat) (offms : Int) : Fwd → Option Act
+  | .sched last => some (.sched id sc (offms.tdiv 1000) last (offms.tmod 1000))
+  | .rel => some (.rel id)
+  | _ => none
+
 end Kap.C17
